@@ -15,7 +15,7 @@ PROPS = {
         level="proof",
         min_obligations=60,
         replay_family="c14",
-        bounded=[dict(family="c14", what="to_value of derived Serialize impls == documented shape; from_value of the alternative encodings", bound="25 typed values + 11 alternative encodings")],
+        bounded=[dict(family="c14", what="to_value of derived Serialize impls == documented shape; from_value of the alternative encodings", bound="25 typed values + 32 alternative encodings / rejections")],
         explanation="serde-lexpr/src/value/ser.rs is extracted from /repo and every Serializer method and every collector (SerializeList, SerializeVector, "
                     "SerializeTupleVariant, SerializeMap, SerializeStruct, SerializeStructVariant: serialize_element/field/key/value/entry and end) is verified to build exactly "
                     "the documented shape as a function of the children's S-expressions: seq/set -> mk_list(items, ()), tuple/tuple struct -> Vector(items), map -> list of "
@@ -23,12 +23,19 @@ PROPS = {
                     "variant -> symbol, newtype variant -> (name . payload), tuple variant -> (name item...), struct variant -> (name (field . value)...), bytes -> byte vector, "
                     "char -> character, every integer width -> the integer of the same mathematical value (num_of_int(v)). Deserializer side (value/de.rs): deserialize_seq accepts "
                     "(), vectors and lists, deserialize_tuple accepts vectors and lists, everything else is an Err; ListAccess rejects a non-null, non-cons tail; MapAccess "
-                    "rejects non-pair entries and improper tails; UnitVariantAccess rejects newtype/tuple/struct payloads; every such error is a data error (C18).",
+                    "rejects non-pair entries and improper tails; UnitVariantAccess rejects newtype/tuple/struct payloads; every such error is a data error (C18). "
+                    "ACCEPTANCE is proved as delegation: every deserialize_* method, on a value of the documented kind, hands exactly the documented payload to the matching "
+                    "visit_* of the visitor and returns its result unchanged (bool, char, str/string/identifier, bytes, unit, option -> none / some(car), newtype, "
+                    "seq/tuple/tuple struct -> visit_seq on a ListAccess / VecAccess positioned at the first element, map/struct -> visit_map on a MapAccess at the first entry, "
+                    "enum -> visit_enum, any -> per kind), and the access objects hand each element / key / value in order to the seed and return its result, moving the cursor by "
+                    "exactly one (so e.g. an empty vector is a sequence, a one-element list is a 1-tuple, `()` is None, nothing is skipped or read twice).",
         assumptions=[
             "serde::Serialize is modelled by trait Serialize { ser_val } (a child's impl returns what the serializer methods it calls return): ASSUMED for derive-generated code",
             "`impl ser::Serializer for Serializer` and the collector impls are verified as inherent impls (serde's traits are external); where two serde traits give one type a "
             "method of the same name the second is renamed (end_tuple_struct)",
             "to_value is verified with signature (value: &T)",
+            "serde's Visitor / DeserializeSeed are modelled by traits whose visit_* / deserialize results are deterministic functions of what they are handed "
+            "(spec functions *_outcome): ASSUMED for derive-generated visitors; this is what lets a contract say `the result is the visitor's result on this payload`",
             "str.into() / [u8].into() / Vec.into(): Box conversions with assumed view-preserving specs",
         ],
         trusted=STD_TRUST,
